@@ -265,9 +265,15 @@ class Check:
         d["wall_s"] = round(res.get("wall_s", 0), 2)
         d["evaluations"] = res.get("evaluations", 0)
         self.cov["parts"][name] = d
+        is_tool = lambda v: isinstance(v.get("replay"), dict) and v["replay"].get("kind") == "tool"
+        real = [v for v in res.get("violations", []) if not is_tool(v)]
         for v in res.get("violations", []):
-            if isinstance(v.get("replay"), dict) and v["replay"].get("kind") == "tool":
-                raise ToolError("%s: %s" % (name, v.get("what")))
+            if is_tool(v):
+                # an incomplete walk is a tool error only when no violation explains it
+                if not real:
+                    raise ToolError("%s: %s" % (name, v.get("what")))
+                d["incomplete"] = v.get("what")
+                continue
             self.violation("%s: %s" % (name, v.get("what")), v.get("replay"))
 
     def violation(self, what, replay_obj):
